@@ -90,6 +90,16 @@ func (e *Enc) evalInstr(ins ssa.Instruction, st *State, main bool) (Val, bool) {
 			if isInteger(x.Type()) {
 				s := m.intSort(x.Type())
 				if m == ModeBV {
+					if bt, ok := x.Type().Underlying().(*types.Basic); ok && main && e.Ct != nil && len(e.Ct.Overflow) > 0 {
+						if bits, signed := intBits(bt); signed {
+							minv := new(big.Int).Neg(new(big.Int).Lsh(big.NewInt(1), uint(bits-1)))
+							anchor := e.srcText(x.Pos())
+							if anchor == "" {
+								anchor = "neg"
+							}
+							e.oblige("overflow", anchor, x.Pos(), e.reachHere(), not(eq(a.L[0], m.lit(s, minv))), "negation does not wrap around (operand is not the minimum integer)")
+						}
+					}
 					return Val{T: x.Type(), L: []string{"(bvneg " + a.L[0] + ")"}}, true
 				}
 				return Val{T: x.Type(), L: []string{e.wrap(x.Type(), "(- "+a.L[0]+")")}}, true
@@ -387,6 +397,25 @@ func (e *Enc) intArith(op token.Token, xt, yt types.Type, A, B string, xv, yv ss
 	bits, signed := intBits(ub)
 	s := m.intSort(xt)
 	if m == ModeBV {
+		if main && signed && pos.IsValid() && e.Ct != nil && len(e.Ct.Overflow) > 0 && (op == token.ADD || op == token.SUB) {
+			// signed wrap-around obligation (contract clause `overflow`)
+			z := m.lit(s, big.NewInt(0))
+			var r, ovf string
+			if op == token.ADD {
+				r = "(bvadd " + A + " " + B + ")"
+				ovf = or(and("(bvsge "+A+" "+z+")", "(bvsge "+B+" "+z+")", "(bvslt "+r+" "+z+")"), and("(bvslt "+A+" "+z+")", "(bvslt "+B+" "+z+")", "(bvsge "+r+" "+z+")"))
+			} else {
+				r = "(bvsub " + A + " " + B + ")"
+				ovf = or(and("(bvsge "+A+" "+z+")", "(bvslt "+B+" "+z+")", "(bvslt "+r+" "+z+")"), and("(bvslt "+A+" "+z+")", "(bvsge "+B+" "+z+")", "(bvsge "+r+" "+z+")"))
+			}
+			anchor := e.srcText(pos)
+			if anchor == "" {
+				anchor = "?"
+			}
+			if !e.inContractEval {
+				e.oblige("overflow", anchor, pos, e.reachHere(), not(ovf), "signed integer arithmetic does not wrap around")
+			}
+		}
 		switch op {
 		case token.ADD:
 			return "(bvadd " + A + " " + B + ")"
